@@ -418,7 +418,12 @@ def judge(chk, drv, obs, line, case, what, stats, corr_fail):
     stats["compared"] += 1
     if m["agree"] == "0":
         # (the pure `un` is total: F10-style TypeErrors of unstructure show up here as "err")
-        stats["heap-vs-pure-model-disagree:" + m["outcome"]] += 1
+        # structure: excluded by theorem C11_refines_pure_structure (expected 0); unstructure: NamedTuple pass-through
+        # (ok) and F10 unhashable encodings (err) only -- the two gaps named next to C11_refines_pure_unstructure_partial
+        stats["heap-vs-pure-model-disagree:%s:%s" % (case.get("dir", "?"), m["outcome"])] += 1
+        if os.environ.get("C11_DUMP_DISAGREE"):
+            with open(os.environ["C11_DUMP_DISAGREE"], "a") as fh:
+                fh.write(m["outcome"] + "\t" + line + "\n")
     # the result *value* is C01/C02's observable, not C11's: logged, never decides the run
     if obs.value is not None and m["value"] is not None and m["value"] != obs.value:
         stats["result-value-differs(logged only)"] += 1
